@@ -297,6 +297,17 @@ func (c22Engine) Generate(seed uint64, tier string) *simrun.Case {
 		}
 	}
 	if r.Chance(1, 4) {
+		// revocation-race scenario appended to the random history: the FIRST validation of a fresh token runs
+		// concurrently with the revocation of its id; afterwards the token is presented again (twice)
+		c.Knobs["clients"] = 2
+		ph := int64(nph) + 1
+		nph += 4
+		c.Ops = append(c.Ops, simrun.Op{C: 1, K: "idp", A: []int64{ph, 0}},
+			simrun.Op{C: 1, K: "mint", A: []int64{ph, 1, int64(r.Intn(2)) * 3, 0, 0, 0, 0, 1, 0}},
+			simrun.Op{C: 1, K: "present", A: []int64{ph + 1, 1}}, simrun.Op{C: 2, K: "revoke", A: []int64{ph + 1, 1}},
+			simrun.Op{C: 1, K: "present", A: []int64{ph + 2, 1}}, simrun.Op{C: 2, K: "present", A: []int64{ph + 3, 1}})
+	}
+	if r.Chance(1, 4) {
 		// key-withdrawal scenario appended to the random history: the IdP stops publishing a key, the key-set
 		// cache runs out and is refreshed by a presentation, then a NEW token signed with the withdrawn key is presented
 		ph := int64(nph) + 1
